@@ -8,7 +8,8 @@ RULE = ("each case runs a structure (repository proteins, cut-outs, chimeras) on
         "REMARK/ANISOU/CONECT/SEQRES/HETNAM/SIGATM/MASTER/END/blank records anywhere; rewriting the "
         "serial, occupancy, B-factor, segment, element and charge columns or truncating lines after "
         "column 54; --protonate-all; -k with the program's own hydrogens written back (amino-acid "
-        "structures only). Oracle: all group records of all conformations and AVR equal (1e-7; the "
+        "structures only); 35 % of the cut-outs carry 1-2 ligands of the fragment library next to an "
+        "ionizable side chain. Oracle: all group records of all conformations and AVR equal (1e-7; the "
         "whole .pka text identical for pure input edits). Non-trivial: the edit touched >= 1 % of the "
         "lines or added >= 10 atoms and the structure has >= 2 titratable groups; distinct = distinct "
         "(structure digest, edit kind, edit seed).")
